@@ -169,6 +169,22 @@ def scenario(transport, entry, Targ, pattern, rng=None):
             except Exception:
                 pass
     us = lambda x: int(round(x * 1e6))
+    # the transport contract (Rt.fd_contract / socket_contract / pty_contract / popen_bounded): a read given timeout t returns
+    # within t + (2*size + 5) non-blocking system calls, and raises TIMEOUT only after t
+    contract = None
+    size = getattr(p, 'maxread', 2000) if entry != 'read_nonblocking' else 100
+    over = (2 * size + 5) * clk.tick + 1e-9
+    for (t0, t1, kind, n, tmo) in reads:
+        tm = p.timeout if tmo == -1 else tmo
+        if tm is None:
+            if kind == 'timeout':
+                contract = 'a read with timeout=None raised TIMEOUT'
+            continue
+        tm = max(tm, 0)
+        if t1 - t0 > tm + over:
+            contract = 'a read given timeout %.4f returned after %.4f s (allowed overhead %.4f)' % (tm, t1 - t0, over); break
+        if kind == 'timeout' and transport != 'popen' and t1 - t0 < tm - 1e-9:
+            contract = 'a read given timeout %.4f raised TIMEOUT after only %.4f s' % (tm, t1 - t0); break
     evs = []
     if entry != 'read_nonblocking':
         for i, r in enumerate(reads):
@@ -180,13 +196,15 @@ def scenario(transport, entry, Targ, pattern, rng=None):
     s_eff = start + (clk.tick if Teff is not None else 0.0)      # `end_time = time.time() + timeout` reads the clock once
     d0 = (us(reads[0][0]) if reads else us(finish_t)) - us(s_eff)
     return dict(outcome=outcome, elapsed=finish_t - start, T=Teff, events=evs, d0=max(0, d0), start=us(s_eff), finish=us(finish_t),
-                hit0=(outcome == 'hit' and not reads), nreads=len(reads))
+                hit0=(outcome == 'hit' and not reads), nreads=len(reads), contract=contract)
 
 
 def oracle(transport, entry, Targ, pattern, r):
     Teff, out, el = r['T'], r['outcome'], r['elapsed']
     if out.startswith('exc') or out == 'blocks-forever':
         return 'the call ended with %s' % out
+    if r.get('contract'):
+        return r['contract']
     if Teff is not None:
         if el > max(Teff, 0) + SLACK:
             return 'took %.4f s with timeout %s (bound %.2f s)' % (el, Teff, max(Teff, 0) + SLACK)
